@@ -95,6 +95,30 @@ def cases(tier, seed):
                 for tr in (False, True):
                     cs.append({'entry': 'multi_solve', 'semiring': kind, 'shapes': {'x': [], 'y': [], 'z': []}, 'keys': keys,
                                'ablocks': ab, 'bblocks': bb, 'transpose': tr})
+    # ---- concrete system matrices (dyadic entries, spectral radius < 1, = 1, > 1, infinite and zero entries), symbolic right-hand side:
+    # larger orders and multi-axis blocks in the Real and Log semirings, where the torch.linalg.solve shortcut, its acceptance test and the
+    # Gauss-Jordan fallback with star all run; the leastness query is linear arithmetic with special-value tags
+    INF = 'inf'
+    mats = [
+        [[0.5, 0.25], [0.0, 0.5]], [[0.0, 1.0], [0.5, 0.0]], [[1.0, 0.0], [0.0, 0.5]], [[0.5, 1.0], [1.0, 0.5]], [[0.0, INF], [0.0, 0.0]], [[0.0, 0.0], [0.0, 0.0]],
+        [[0.5, 0.5, 0.0], [0.0, 0.5, 0.5], [0.0, 0.0, 0.5]], [[0.0, 1.0, 0.0], [0.0, 0.0, 1.0], [0.5, 0.0, 0.0]], [[2.0, 0.0, 0.0], [1.0, 0.0, 0.0], [0.0, 0.0, 0.5]],
+        [[0.0, 0.5, 0.0], [0.0, 0.0, 0.0], [1.0, 0.0, 1.0]], [[0.5, 0.0, 0.25], [0.25, 0.0, 0.0], [0.0, 1.0, 0.5]],
+        [[0.0, 0.5, 0.0, 0.0], [0.0, 0.0, 0.5, 0.0], [0.0, 0.0, 0.0, 1.0], [0.5, 0.0, 0.0, 0.0]],
+        [[0.5, 0.0, 0.0, 0.25], [0.0, 0.5, 0.0, 0.0], [0.25, 0.0, 0.5, 0.0], [0.0, 1.0, 0.0, 0.0]],
+    ]
+    for kind in ('real',):       # (Log: the max-shifted logsumexp of the einsum layer is not exact on concrete floats; the generic elimination it shares with Viterbi/Bool is covered there)
+        for mi, M in enumerate(mats):
+            n = len(M)
+            for m in (None, 2):
+                cs.append({'entry': 'solve', 'semiring': kind, 'n': n, 'm': m, 'A': M, 'mat': mi})
+            # the same matrix cut into blocks over keys x (first n-1 indices, as one or two axes) and y (scalar)
+            if n >= 3:
+                xs = [[n - 1]] + ([[2, (n - 1) // 2]] if (n - 1) % 2 == 0 and n - 1 >= 4 else []) + ([[1, n - 1]] if tier != 'quick' else [])
+                for xshape in xs:
+                    for tr in (False, True):
+                        for bb in (['x', 'y'], ['x'], ['y']):
+                            cs.append({'entry': 'multi_solve', 'semiring': kind, 'shapes': {'x': xshape, 'y': []}, 'A': M, 'mat': mi, 'bblocks': bb, 'transpose': tr,
+                                       'ablocks': None})
     return cs
 
 
@@ -113,6 +137,8 @@ def run_case(col, case, dt='float32'):
     entry = case['entry']
     feats = {'semiring': kind, 'entry': entry, 'transpose': case.get('transpose')}
     col.case(repr(case), nontrivial=True, sample={k: (v if k != 'operands' else [patterns.depict(o['recipe']) + ' default=' + o['default'] for o in v]) for k, v in case.items()})
+    if case.get('A') is not None:
+        return run_concrete_matrix(col, case, B, feats, dt)
     # how many unknowns -> regime
     if entry == 'solve':
         sizes = [case['n'] ** 2, case['n'] * (case['m'] or 1)]
@@ -173,6 +199,62 @@ def run_case(col, case, dt='float32'):
         f = dict(feats)
         f['regime'] = regime
         TL.explore(col, V, body, f, make_replay, label=f'{kind}/{entry}/{regime}', timeout_ms=30000)
+
+
+def conc(kind, v):
+    v = math.inf if v == 'inf' else float(v)
+    return sx.LogV(v) if kind == 'log' else v
+
+
+def blocks_of(case):
+    """cut case['A'] (order n) into blocks over keys x (first n-1 indices) and y (last index); all-zero blocks are absent"""
+    M = case['A']
+    n = len(M)
+    rng_ = {'x': range(0, n - 1), 'y': range(n - 1, n)}
+    ab, ea = [], {}
+    for a in 'xy':
+        for b in 'xy':
+            fl = [M[i][j] for i in rng_[a] for j in rng_[b]]
+            if any(v != 0.0 for v in fl):
+                ab.append((a, b))
+                ea[a + b] = fl
+    return ab, ea
+
+
+def run_concrete_matrix(col, case, B, feats, dt):
+    kind = case['semiring']
+    entry = case['entry']
+    n = len(case['A'])
+    sx.FORK[0] = True
+    V = symvals.Vars()
+    if entry == 'solve':
+        m = case.get('m')
+        nb = n * (m or 1)
+        elems = [[conc(kind, v) for row in case['A'] for v in row], [V.elem(f'b{i}', kind, 'T') for i in range(nb)]]
+        ny = nb
+        c2 = case
+    else:
+        ab, ea = blocks_of(case)
+        numel = {'x': n - 1, 'y': 1}
+        eb = {k: [V.elem(f'b{k}{i}', kind, 'T') for i in range(numel[k])] for k in case['bblocks']}
+        elems = [{k: [conc(kind, v) for v in fl] for k, fl in ea.items()}, eb]
+        ny = n
+        c2 = dict(case)
+        c2['ablocks'] = ab
+    yel = [V.elem(f'y{i}', kind, 'T') for i in range(ny)]
+
+    def body():
+        items = R.run_dense(B, c2, elems, yel) if entry == 'solve' else R.run_multi(B, c2, elems, yel)
+        return claims_of(items)
+
+    def make_replay(vals, name):
+        d = dict(c2)
+        d.update({'dtype': dt, 'values': TL.jsonable(vals), 'claim': name, 'regime': 'concrete-matrix', 'profile': None})
+        return d
+    f = dict(feats)
+    f['regime'] = 'concrete-matrix'
+    f['mat'] = case.get('mat')
+    TL.explore(col, V, body, f, make_replay, label=f'{kind}/{entry}/concrete-matrix/{case.get("mat")}', timeout_ms=30000)
 
 
 def run_indexed(col, case, k):
